@@ -299,14 +299,17 @@ Section Total.
      decoder's nesting bound) gives an equivalent message *)
   Hypothesis Hnames : oneof_names_ok env.
   Hypothesis Hinner : inner_ok any_inner.
+  Variable raw : jvalue -> bytes.
+  Hypothesis Hraw_ne : forall j, wfb j = true -> raw j <> [].
+  Variable mapchk : bool.
 
   Theorem codec_full root m : rep_root any_inner env root m ->
     exists txt J, encode fmt_float any_inner env root m = Ok txt /\ strict_parse txt = Some J /\
       (N.of_nat (jnest J) <= max_nesting ->
-       exists m', decode_tree dsc env root J = Ok m' /\ equiv_root any_inner env root m m').
+       exists m', decode_tree dsc raw mapchk env root J = Ok m' /\ equiv_root any_inner raw env root m m').
   Proof.
     intros Hrep. destruct (encode_total root m Hrep) as (txt & Henc).
-    destruct (codec_roundtrip fmt_float any_inner dsc env Hflat Hnames Hscalar Hinner root m txt Hrep Henc)
+    destruct (codec_roundtrip fmt_float any_inner dsc raw Hraw_ne mapchk env Hflat Hnames Hscalar Hinner root m txt Hrep Henc)
       as (J & HJ & Hdec).
     exists txt, J. repeat split; assumption.
   Qed.
